@@ -1,5 +1,5 @@
 (* Proofs/Concat.v — lemmas about Model/Concat.v (generic chunk concatenation). *)
-From Eino Require Import Base.Util Model.Concat.
+From Eino Require Import Base.Util Model.ConcatTable Model.Concat.
 
 Lemma res_mapM_no_panic {A B} (f : A -> res B) l :
   (forall a, In a l -> f a <> Panic) -> res_mapM f l <> Panic.
@@ -21,12 +21,22 @@ Proof.
   apply filter_In in Hin. destruct Hin as [_ Hn]. destruct v0; cbn in *; congruence.
 Qed.
 
+Lemma registered_str : registered TStr = Some FConcatStrings.
+Proof. reflexivity. Qed.
+
+Lemma registered_num k : registered (TNum k) = Some FUseLast.
+Proof.
+  unfold registered, kind_name.
+  destruct (N.eqb k 0); [reflexivity|]. destruct (N.eqb k 1); [reflexivity|].
+  destruct (N.eqb k 2); reflexivity.
+Qed.
+
 Lemma concat_typed_no_panic f t vs :
   (forall ms, f ms <> Panic) -> concat_typed f t vs <> Panic.
 Proof.
   intros Hf. unfold concat_typed. destruct t.
-  - destruct vs as [|v [|w l]]; discriminate.
-  - destruct vs as [|v [|w l]]; discriminate.
+  - destruct vs as [|v [|w l]]; try discriminate; rewrite registered_str; discriminate.
+  - destruct vs as [|v [|w l]]; try discriminate; rewrite registered_num; discriminate.
   - destruct vs as [|v [|w l]]; try discriminate; apply single_nonzero_no_panic.
   - specialize (Hf (maps vs)). destruct (f (maps vs)); cbn; congruence.
 Qed.
